@@ -284,6 +284,21 @@ Lemma list_plan_cases :
   (forall b, list_plan_of 2 b = UseLIST).
 Proof. repeat split. Qed.
 
+(* the plan of a call does not depend on the calls (refused or not) made earlier on the connection *)
+Lemma list_plans_app h t : list_plans (h ++ t) = list_plans h ++ list_plans t.
+Proof. unfold list_plans. apply map_app. Qed.
+
+Lemma list_plan_history_independent h raw b :
+  list_plans (h ++ [(raw, b)]) = list_plans h ++ [list_plan_of raw b].
+Proof. rewrite list_plans_app. reflexivity. Qed.
+
+Lemma list_plan_after_any_history h raw :
+  last (list_plans (h ++ [(raw, false)])) RaiseStatus = (if raw =? 2 then UseLIST else UseMLSD).
+Proof.
+  rewrite list_plan_history_independent, last_last. unfold list_plan_of.
+  destruct (raw =? 2); reflexivity.
+Qed.
+
 (* ---------------- the workers under backend faults ---------------- *)
 Lemma worker_lines_ok faulty line_of dir :
   existsb faulty dir = false -> worker_lines faulty line_of dir = Some (flat_map line_of dir).
